@@ -1,6 +1,7 @@
 package main
 
 import (
+	"encoding/json"
 	"fmt"
 	"os"
 	"path/filepath"
@@ -19,6 +20,7 @@ var reWarnHeader = regexp.MustCompile(`(?m)Warnung \(\d{4}\) in `)
 type cliViol struct {
 	sig, detail string
 	job         int
+	mode        cliMode
 }
 
 func c07CLI(jobs []fwproto.Job, results []fwproto.Result, want int) ([]cliViol, int, map[string]int) {
@@ -62,52 +64,109 @@ func c07CLI(jobs []fwproto.Job, results []fwproto.Result, want int) ([]cliViol, 
 			if err != nil {
 				return
 			}
-			dir := filepath.Join(workRoot, fmt.Sprintf("cli%d", i))
-			defer os.RemoveAll(dir)
-			if err := ex.Tree.Materialise(dir); err != nil {
+			// the kind of output asked for and the link mode vary with the run: every path through the build command
+			// has to report failure the same way
+			mode := cliModes[(i/3)%len(cliModes)]
+			o := cliRun(tc, ex, mode, fmt.Sprintf("cli%d", i))
+			if o == nil {
 				return
-			}
-			exe := filepath.Join(dir, "prog")
-			out, rc, err := compileDDP(tc, tc.Kddp, dir, ex.Root, exe, BuildCfg{O: 1, LinkMods: true, LinkList: true}, false, nil)
-			if err != nil {
-				return
-			}
-			_, statErr := os.Stat(exe)
-			built := statErr == nil
-			hasErr := reErrHeader.MatchString(out)
-			hasWarn := reWarnHeader.MatchString(out)
-			add := func(sig, detail string) {
-				mu.Lock()
-				viols = append(viols, cliViol{sig, detail + "\n  kddp output:\n  " + firstLines(out, 12), i})
-				mu.Unlock()
 			}
 			mu.Lock()
-			switch {
-			case rc == 0:
+			stats[fmt.Sprintf("mode %s module-linken=%t", map[string]string{"": "executable", ".ll": "llvm-ir", ".o": "object", ".s": "assembly"}[mode.Ext], mode.Mods)]++
+			if o.rc == 0 {
 				stats["exit0"]++
-			default:
+			} else {
 				stats["exit-nonzero"]++
 			}
-			if hasWarn && !hasErr {
+			if o.warnOnly {
 				stats["warnings-only"]++
 			}
-			mu.Unlock()
-			switch {
-			case hasErr && rc == 0:
-				add("cli|error-printed-exit-0", fmt.Sprintf("kddp printed an error-level diagnostic but exited with status 0 (executable exists=%t)", built))
-			case rc != 0 && built:
-				add("cli|failed-but-executable", fmt.Sprintf("kddp exited with status %d but left an executable behind", rc))
-			case rc == 0 && !built:
-				add("cli|exit-0-no-executable", "kddp exited with status 0 but produced no executable")
-			case rc != 0 && len(out) == 0:
-				add("cli|silent-failure", fmt.Sprintf("kddp exited with status %d without printing anything", rc))
-			case hasWarn && !hasErr && rc != 0 && !reOtherFailure.MatchString(out):
-				add("cli|warnings-fail", fmt.Sprintf("only warnings were printed but kddp exited with status %d", rc))
+			if o.sig != "" {
+				viols = append(viols, cliViol{o.sig, o.detail, i, mode})
 			}
+			mu.Unlock()
 		}(i)
 	}
 	wg.Wait()
 	return viols, len(chosen), stats
+}
+
+// cliMode: what the stock kddp is asked to produce
+type cliMode struct {
+	Ext  string `json:"ext"`            // "" executable, ".ll", ".o", ".s"
+	Mods bool   `json:"module_linken"` // --module-linken
+}
+
+var cliModes = []cliMode{{"", true}, {"", true}, {".ll", true}, {".o", true}, {".s", true}, {".ll", false}, {".o", false}}
+
+type cliOutcome struct {
+	rc          int
+	warnOnly    bool
+	sig, detail string
+}
+
+// cliRun materialises the (explicit) tree of a job, runs the stock kddp on it in the given mode and evaluates I4.
+func cliRun(tc *Toolchain, ex *fwproto.Job, mode cliMode, work string) *cliOutcome {
+	dir := filepath.Join(workRoot, work)
+	defer os.RemoveAll(dir)
+	if err := ex.Tree.Materialise(dir); err != nil {
+		return nil
+	}
+	exe := filepath.Join(dir, "prog"+mode.Ext)
+	out, rc, err := compileDDP(tc, tc.Kddp, dir, ex.Root, exe, BuildCfg{O: 1, LinkMods: mode.Mods, LinkList: true}, false, nil)
+	if err != nil {
+		return nil
+	}
+	st, statErr := os.Stat(exe)
+	built := statErr == nil
+	if mode.Ext != "" {
+		// an empty file is not a usable result
+		built = built && st.Size() > 0
+	}
+	hasErr := reErrHeader.MatchString(out)
+	hasWarn := reWarnHeader.MatchString(out)
+	o := &cliOutcome{rc: rc, warnOnly: hasWarn && !hasErr}
+	add := func(sig, detail string) {
+		o.sig, o.detail = sig, detail+"\n  kddp output:\n  "+firstLines(out, 12)
+	}
+	what := fmt.Sprintf("kddp -o prog%s --module-linken=%t", mode.Ext, mode.Mods)
+	switch {
+	case hasErr && rc == 0:
+		add("cli|error-printed-exit-0", fmt.Sprintf("%s printed an error-level diagnostic but exited with status 0 (output exists=%t)", what, built))
+	case rc != 0 && built:
+		add("cli|failed-but-executable", fmt.Sprintf("%s exited with status %d but left its output behind", what, rc))
+	case rc == 0 && !built:
+		add("cli|exit-0-no-executable", fmt.Sprintf("%s exited with status 0 but produced no output", what))
+	case rc != 0 && len(out) == 0:
+		add("cli|silent-failure", fmt.Sprintf("%s exited with status %d without printing anything", what, rc))
+	case hasWarn && !hasErr && rc != 0 && !reOtherFailure.MatchString(out):
+		add("cli|warnings-fail", fmt.Sprintf("only warnings were printed but %s exited with status %d", what, rc))
+	}
+	return o
+}
+
+// replayCLI re-runs an I4 replay file.
+func replayCLI(path string) bool {
+	b, err := os.ReadFile(path)
+	if err != nil {
+		infra("cannot read %s: %v", path, err)
+	}
+	var rp replayFile
+	if err := json.Unmarshal(b, &rp); err != nil {
+		infra("replay file does not parse: %v", err)
+	}
+	var mode cliMode
+	if eb, err := json.Marshal(rp.Extra); err == nil {
+		json.Unmarshal(eb, &mode)
+	}
+	o := cliRun(buildToolchain(), &rp.Job, mode, "clireplay")
+	if o == nil {
+		infra("cannot run kddp on the tree of %s", path)
+	}
+	if os.Getenv("DDPSIM_DEBUG") != "" {
+		fmt.Printf("  mode %+v: exit %d, %s\n  %s\n", mode, o.rc, o.sig, o.detail)
+	}
+	return o.sig == rp.Sig
 }
 
 var reOtherFailure = regexp.MustCompile(`Fehler beim|Unerwarteter Fehler|Fehlerhafter Quellcode`)
